@@ -120,3 +120,12 @@ Print Assumptions c19_mutation_reads_from_file.
 Theorem c19_each_record_read_once : forall ts s, NoDup (touch_offs (fresh s ts)).
 Proof. exact LazyMutProofs.fresh_nodup. Qed.
 Print Assumptions c19_each_record_read_once.
+
+(* WHATEVER IS CACHED OR EVICTED: with any set s of records already in memory, GetItem(key, false), SetItem and Delete
+   read node records, item headers and keys only *)
+Theorem c19_any_cache_state : forall cmp t key val prio k s,
+  Forall (fun r => in_node t r \/ in_keypart t r) (reads_of s (get_t cmp t k)) /\
+  Forall (fun r => in_node t r \/ in_keypart t r) (reads_of s (set_touches cmp t key val prio)) /\
+  Forall (fun r => in_node t r \/ in_keypart t r) (reads_of s (del_touches cmp t k)).
+Proof. exact LazyMutProofs.mut_reads_any_cache. Qed.
+Print Assumptions c19_any_cache_state.
